@@ -54,12 +54,27 @@ def gen_fn_job(ch, jid, label):
     if ch.chance(label + ".kwargs", 0.15):
         desc["kwargs"] = "kwargs"
     desc["returns"] = None
+    if ch.chance(label + ".announce", 0.35):
+        # prose that announces a default in one of the four recognised phrasings - sometimes two of them in one description
+        phrases = ["Defaults to %s", "defaults to %s", "Default value is %s", "Default: %s"]
+        for i, p in enumerate(desc["params"]):
+            if p["default"] is not None and p["default"].get("v") is not None and p["name"] in documented and ch.chance("%s.an%d" % (label, i), 0.5):
+                val = p["default"]["v"]
+                txt = ('"%s"' % val) if isinstance(val, str) else repr(val)
+                p["doc"] = p["doc"] + ". " + ch.choice("%s.ph%d" % (label, i), phrases) % txt
+                if ch.chance("%s.two%d" % (label, i), 0.5):
+                    # a second, *different* phrasing announcing another value (which one counts must not depend on the process)
+                    first = [ph for ph in phrases if (ph % txt) in p["doc"]][0]
+                    other = ch.choice("%s.ph2%d" % (label, i), [ph for ph in phrases if ph.lower() != first.lower()])
+                    alt = {"int": "7", "float": "0.75", "bool": "True", "str": '"other"'}.get(type(val).__name__, "7")
+                    p["doc"] += ". In legacy mode " + other[0].lower() + other[1:] % alt
+                p["doc_announces_default"] = True
     fname = ch.choice(label + ".fname", ["train", "run", "fit", "build"])
     src = render.render_function(desc, fname, ftype=ftype, inline_types=inline, kwonly=kwonly, documented=documented, style=style,
                                  body=["total = 0"] if ch.chance(label + ".body", 0.3) else None)
     truth = {"names": names + ([desc["kwargs"]] if desc.get("kwargs") else []),
              "documented": documented, "style": style, "inline": inline, "ftype": ftype, "kwonly": kwonly,
-             "params": {p["name"]: {"typ": p["typ"], "doc": p["doc"], "default": p["default"]} for p in desc["params"]}}
+             "params": {p["name"]: {"typ": p["typ"], "doc": p["doc"], "default": p["default"], "announces": bool(p.get("doc_announces_default"))} for p in desc["params"]}}
     return {"id": jid, "kind": "parse_function", "src": src, "name": fname, "truth": truth,
             "inmem": ch.chance(label + ".inmem", 0.12)}
 
@@ -302,8 +317,9 @@ def c07_check_function(job, ir, sig_names, sig_params):
         p = byname[n]
         if sp["kind"] == "VAR_KEYWORD":
             continue
-        # clause 3: signature default / annotation fill the gaps
-        if sp["has_default"]:
+        # clause 3: signature default / annotation fill the gaps (a default announced in the prose is documented
+        # information and takes precedence: nothing to assert then)
+        if sp["has_default"] and not (t["params"].get(n) or {}).get("announces"):
             if "default" not in p:
                 out.append(("3-default", "%s: signature default %r is missing from the parsed interface" % (n, sp["default"]), {"how": "missing", "documented": _docmode(t)}))
             else:
@@ -314,13 +330,14 @@ def c07_check_function(job, ir, sig_names, sig_params):
                     ok = type(d) is type(sp["default"]) and d == sp["default"]
                 if not ok:
                     out.append(("3-default", "%s: parsed default %r (%s), signature default %r (%s)" % (n, d, type(d).__name__, sp["default"], type(sp["default"]).__name__),
-                                {"how": "%s->%s" % (type(sp["default"]).__name__, type(d).__name__), "documented": _docmode(t)}))
-        if sp["annotation"] is not None:
+                                {"how": "%s->%s" % (type(sp["default"]).__name__, type(d).__name__), "documented": _docmode(t), "style": t["style"],
+                                 "announce_in_doc": any(x.get("announces") for x in t["params"].values())}))
+        if sp["annotation"] is not None and not (t["params"].get(n) or {}).get("announces"):
             if _ws(p.get("typ")) != _ws(sp["annotation"]):
                 out.append(("3-annotation", "%s: parsed type %r, signature annotation %r" % (n, p.get("typ"), sp["annotation"]), {"documented": _docmode(t)}))
         # clause 4: prose attached to the parameter it names, and to no other
         if n in t["documented"]:
-            if _norm_prose(p.get("doc")) != _norm_prose(t["params"][n]["doc"]):
+            if not t["params"][n].get("announces") and _norm_prose(p.get("doc")) != _norm_prose(t["params"][n]["doc"]):
                 out.append(("4-prose", "%s: parsed prose %r, documented prose %r" % (n, p.get("doc"), t["params"][n]["doc"]), {"style": t["style"]}))
             if not t["inline"] and t["params"][n]["typ"] and _ws(p.get("typ")) != _ws(t["params"][n]["typ"]):
                 out.append(("4-doctype", "%s: parsed type %r, documented type %r" % (n, p.get("typ"), t["params"][n]["typ"]), {"style": t["style"]}))
@@ -783,7 +800,7 @@ def run_check(prop, tier):
                 if k:
                     known_hit.setdefault(k["id"], [k, 0])[1] += 1
                 else:
-                    new_sigs.setdefault(core.digest(v["sig"]), {"v": v, "job": jobmap[v["job"]], "rep": rep, "seed": seed})
+                    new_sigs.setdefault(core.digest(v["sig"]), {"v": v, "job": jobmap[v["job"]], "rep": rep, "seed": seed, "jobs": jobs})
         if prop == "C12":
             # self-check of the harness: the first replica is run twice?  no - agreement across replicas is the oracle itself
             for dv in compare_replicas(jobs, replicas, {k: v for k, v in results.items()}):
@@ -994,7 +1011,40 @@ def minimise(prop, item):
     rep = item["rep"]
     doc = {"property": prop, "engine": "replica", "expect_sig": v["sig"], "detail": v["detail"], "seed": item["seed"], "job_id": job["id"], "jobs": [job],
            "replicas": [{"rid": 0, "hashseed": rep["hashseed"], "line_length": rep.get("line_length"), "schedule": [job["id"]]}]}
-    return doc
+    if execute_replay_doc(doc)[1]:
+        return doc
+    # the job alone is fine: the violation depends on what ran before it in the same process
+    jobs = item["jobs"]
+    sched = rep["schedule"]
+    first = sched.index(job["id"]) if job["id"] in sched else len(sched) - 1
+    head, last = sched[:first], [job["id"]]
+
+    def mk(prefix):
+        used = set(prefix)
+        return {"property": prop, "engine": "replica", "expect_sig": v["sig"], "detail": v["detail"], "seed": item["seed"], "job_id": job["id"],
+                "jobs": [j for j in jobs if j["id"] in used],
+                "replicas": [{"rid": 0, "hashseed": rep["hashseed"], "line_length": rep.get("line_length"), "schedule": prefix}],
+                "class": "history dependence: the violation needs the listed earlier conversions in the same process"}
+
+    if not execute_replay_doc(mk(head + last))[1]:
+        return mk(list(sched))
+    attempts, gran = 0, 2
+    while head and attempts < 48:
+        chunk = max(1, len(head) // gran)
+        reduced = False
+        for start in range(0, len(head), chunk):
+            cand = head[:start] + head[start + chunk:]
+            attempts += 1
+            if execute_replay_doc(mk(cand + last))[1]:
+                head, gran, reduced = cand, max(gran - 1, 2), True
+                break
+            if attempts >= 48:
+                break
+        if not reduced:
+            if chunk == 1:
+                break
+            gran = min(len(head), gran * 2)
+    return mk(head + last)
 
 
 def replay(doc, path):
